@@ -2,7 +2,7 @@ import NmVerif.Index.Roll
 import NmVerif.Lemmas.SelCommon
 import NmVerif.Lemmas.Addressing
 /-
-  SPEC of np.roll and proofs that the MODEL meets it on the domain `|shift| ≤ extent` (single wrap).
+  SPEC of np.roll and proofs that the MODEL meets it for every shift (positive extents).
   NumPy: `np.roll(a, shift, axis=k)[…, x, …] = a[…, (x - shift) mod n, …]` (`n` the extent; Python's non-negative mod);
          axis None rolls the flattened array and restores the shape.
 -/
@@ -17,25 +17,27 @@ theorem rollSrc_lt (n x : Nat) (shift : Int) (hn : 0 < n) : rollSrc n x shift < 
   have h2 := Int.emod_lt_of_pos ((x : Int) - shift) (by omega : (0 : Int) < n)
   omega
 
-/-- a single wrap is the full modulo as long as `|shift| ≤ n` -/
-theorem normalizeRollIndex_eq (n x : Nat) (shift : Int) (hx : x < n) (h1 : -(n : Int) ≤ shift) (h2 : shift ≤ n) :
-    normalizeRollIndex ((x : Int) - shift) n = ((x : Int) - shift) % (n : Int) := by
-  unfold normalizeRollIndex
-  by_cases c1 : (x : Int) - shift < 0
-  · simp only [c1, if_true]
-    rw [← Int.add_emod_left (n : Int) ((x : Int) - shift)]
-    exact (Int.emod_eq_of_lt (by omega) (by omega)).symm
-  · simp only [c1, if_false]
-    by_cases c2 : (n : Int) ≤ (x : Int) - shift
-    · simp only [c2, if_true]
-      rw [← Int.sub_emod_right ((x : Int) - shift) (n : Int)]
-      exact (Int.emod_eq_of_lt (by omega) (by omega)).symm
-    · simp only [c2, if_false]
-      exact (Int.emod_eq_of_lt (by omega) (by omega)).symm
+/-- C++ `%` followed by the sign correction is the mathematical modulo, for every shift (extent positive) -/
+theorem normalizeRollIndex_eq (n : Nat) (a : Int) (hn : 0 < n) :
+    normalizeRollIndex a n = a % (n : Int) := by
+  have hpos : (0 : Int) < n := by omega
+  have h1 := Int.emod_nonneg a (by omega : (n : Int) ≠ 0)
+  have h2 := Int.emod_lt_of_pos a hpos
+  have h := @Int.tmod_eq_emod a (n : Int)
+  simp only [normalizeRollIndex]
+  by_cases hc : 0 ≤ a ∨ (n : Int) ∣ a
+  · rw [if_pos hc] at h
+    rw [h]
+    split <;> omega
+  · rw [if_neg hc] at h
+    have habs : (n : Int).natAbs = n := by omega
+    rw [habs] at h
+    rw [h]
+    split <;> omega
 
-theorem i2u_normalizeRollIndex (n x : Nat) (shift : Int) (hx : x < n) (h1 : -(n : Int) ≤ shift) (h2 : shift ≤ n) :
+theorem i2u_normalizeRollIndex (n x : Nat) (shift : Int) (hn : 0 < n) :
     i2u (normalizeRollIndex ((x : Int) - shift) n) = rollSrc n x shift := by
-  rw [normalizeRollIndex_eq n x shift hx h1 h2, i2u_of_nonneg _ (Int.emod_nonneg _ (by omega))]
+  rw [normalizeRollIndex_eq n _ hn, i2u_of_nonneg _ (Int.emod_nonneg _ (by omega))]
   rfl
 
 theorem normalizeAxis1_some (axis : Int) (n k : Nat) (h : normalizeAxis1 axis n = some k) :
@@ -63,9 +65,7 @@ theorem normalizeAxis1_none (axis : Int) (n : Nat) (h : axis < -(n : Int) ∨ (n
 
 /-- one accepted axis: the loop writes `rollSrc` at the normalised position -/
 theorem indexRollU_single (s : Shape) (d : Idx) (shift axis : Int) (k : Nat)
-    (hk : normalizeAxis1 axis s.length = some k) (hd : InShape d s)
-    (h1 : -(s[k]'(normalizeAxis1_some axis _ k hk).1 : Int) ≤ shift)
-    (h2 : shift ≤ (s[k]'(normalizeAxis1_some axis _ k hk).1 : Int)) :
+    (hk : normalizeAxis1 axis s.length = some k) (hd : InShape d s) :
     indexRollU s d [shift] [axis] = some (d.set k (rollSrc (s[k]'(normalizeAxis1_some axis _ k hk).1) (d[k]'(by
       have := hd.length_eq; have := (normalizeAxis1_some axis _ k hk).1; omega)) shift)) := by
   obtain ⟨hkn, hpos⟩ := normalizeAxis1_some axis _ k hk
@@ -74,7 +74,7 @@ theorem indexRollU_single (s : Shape) (d : Idx) (shift axis : Int) (k : Nat)
   have hxk : d[k] < s[k] := ((inShape_iff_forall _ _).1 hd).2 k hkd hkn
   simp only [indexRollU, indexRollLoop, atPy, hpos, hl, Option.bind_some]
   simp only [List.getElem?_eq_getElem hkn, List.getElem?_eq_getElem hkd, setPy, hl, hpos]
-  rw [i2u_normalizeRollIndex s[k] d[k] shift hxk h1 h2]
+  rw [i2u_normalizeRollIndex s[k] d[k] shift (by omega)]
 
 end NmVerif.Index
 
@@ -89,7 +89,7 @@ inductive AxesNorm (n : Nat) : List Int → List Nat → Prop
 /-- one step of the axis loop on accepted arguments -/
 theorem indexRollLoop_cons (s : Shape) (d : Idx) (hd : InShape d s) (ax : Int) (axes : List Int) (sh : Int) (shifts : List Int)
     (res : Idx) (hres : res.length = d.length) (k : Nat) (hk : normalizeAxis1 ax s.length = some k)
-    (n x : Nat) (hn : s[k]? = some n) (hx : d[k]? = some x) (h1 : -(n : Int) ≤ sh) (h2 : sh ≤ (n : Int)) :
+    (n x : Nat) (hn : s[k]? = some n) (hx : d[k]? = some x) :
     indexRollLoop s d (ax :: axes) (sh :: shifts) res =
       indexRollLoop s d axes shifts (res.set k (rollSrc n x sh)) := by
   obtain ⟨hkn, hpos⟩ := normalizeAxis1_some ax _ k hk
@@ -101,14 +101,13 @@ theorem indexRollLoop_cons (s : Shape) (d : Idx) (hd : InShape d s) (ax : Int) (
     have := ((inShape_iff_forall _ _).1 hd).2 k hkd hkn
     omega
   simp only [indexRollLoop, atPy, hpos, hl, Option.bind_some, hn, hx, setPy, hres]
-  rw [i2u_normalizeRollIndex n x sh hxk h1 h2]
+  rw [i2u_normalizeRollIndex n x sh (by omega)]
 
 /-- the axis loop with pairwise distinct accepted axes: every listed axis gets NumPy's source position, the others are copied -/
 theorem indexRollLoop_spec (s : Shape) (d : Idx) (hd : InShape d s) :
     ∀ (axes : List Int) (ks : List Nat) (shifts : List Int) (res : Idx),
       AxesNorm s.length axes ks →
       shifts.length = axes.length →
-      (∀ (i k : Nat) (sh : Int), ks[i]? = some k → shifts[i]? = some sh → ∃ n : Nat, s[k]? = some n ∧ -(n : Int) ≤ sh ∧ sh ≤ (n : Int)) →
       res.length = d.length →
       ∃ r, indexRollLoop s d axes shifts res = some r ∧ r.length = d.length ∧
         ∀ j, (j ∉ ks → r[j]? = res[j]?) ∧
@@ -117,25 +116,24 @@ theorem indexRollLoop_spec (s : Shape) (d : Idx) (hd : InShape d s) :
   intro axes
   induction axes with
   | nil =>
-    intro ks shifts res hf _ _ hres
+    intro ks shifts res hf _ hres
     cases hf
     exact ⟨res, by simp [indexRollLoop], hres, fun j => ⟨fun _ => rfl, fun _ i sh hi => by simp at hi⟩⟩
   | cons ax axes ih =>
-    intro ks shifts res hf hlen hb hres
+    intro ks shifts res hf hlen hres
     cases hf with
     | cons hk hf' =>
       rename_i k ks'
       cases shifts with
       | nil => simp at hlen
       | cons sh shifts' =>
-        obtain ⟨n, hn, h1, h2⟩ := hb 0 k sh (by simp) (by simp)
         obtain ⟨hkn, _⟩ := normalizeAxis1_some ax _ k hk
+        have hn : s[k]? = some s[k] := by simp [hkn]
         have hl := hd.length_eq
         have hkd : k < d.length := by omega
         have hx : d[k]? = some d[k] := by simp [hkd]
-        rw [indexRollLoop_cons s d hd ax axes sh shifts' res hres k hk n d[k] hn hx h1 h2]
-        obtain ⟨r, hr, hrl, hspec⟩ := ih ks' shifts' (res.set k (rollSrc n d[k] sh)) hf' (by simpa using hlen)
-          (fun i k' sh' hi hs => hb (i + 1) k' sh' (by simpa using hi) (by simpa using hs)) (by simpa using hres)
+        rw [indexRollLoop_cons s d hd ax axes sh shifts' res hres k hk s[k] d[k] hn hx]
+        obtain ⟨r, hr, hrl, hspec⟩ := ih ks' shifts' (res.set k (rollSrc s[k] d[k] sh)) hf' (by simpa using hlen) (by simpa using hres)
         refine ⟨r, hr, hrl, fun j => ⟨?_, ?_⟩⟩
         · intro hj
           simp only [List.mem_cons, not_or] at hj
@@ -147,7 +145,7 @@ theorem indexRollLoop_spec (s : Shape) (d : Idx) (hd : InShape d s) :
           | zero =>
             simp only [List.getElem?_cons_zero, Option.some.injEq] at hi hs
             subst hi hs
-            refine ⟨n, d[k], hn, hx, ?_⟩
+            refine ⟨s[k], d[k], hn, hx, ?_⟩
             rw [(hspec k).1 hnd.1, List.getElem?_set]
             simp [hres, hkd]
           | succ i =>
